@@ -74,24 +74,38 @@ var opKinds = []string{
 	"own", "own", "own", "own",
 	"timeout", "timeout",
 	"fair", "fair", "fair",
-	"byzvote", "byzvote", "byzclaim", "byzprop", "split",
-	"dup", "drop", "crashrestart", "crash", "restart", "sync", "amnesia", "stalepolka", "lateproposal",
+	"byzvote", "byzvote", "byzprop", "split",
+	"dup", "drop", "crashrestart", "crash", "restart", "sync", "amnesia",
 }
 
-func GenOp(t *rapid.T) sim.Op {
-	return sim.Op{
-		K: rapid.SampledFrom(opKinds).Draw(t, "k"),
-		N: rapid.IntRange(0, 63).Draw(t, "n"),
-		A: rapid.IntRange(0, 1023).Draw(t, "a"),
-		B: rapid.IntRange(0, 1023).Draw(t, "b"),
-		C: rapid.IntRange(0, 1023).Draw(t, "c"),
+// attackKinds adds the scripted multi-round attacks and the +2/3 claims of a Byzantine peer;
+// half of the cases draw from this list, the other half from the plain one (a scripted attack
+// consumes most of a case's budget of heights, so mixing them into every case would thin out the
+// schedules that rely on many small adversarial steps)
+var attackKinds = append(append([]string{}, opKinds...), "stalepolka", "lateproposal", "byzclaim", "byzclaim")
+
+func genOpFrom(kinds []string) func(t *rapid.T) sim.Op {
+	return func(t *rapid.T) sim.Op {
+		return sim.Op{
+			K: rapid.SampledFrom(kinds).Draw(t, "k"),
+			N: rapid.IntRange(0, 63).Draw(t, "n"),
+			A: rapid.IntRange(0, 1023).Draw(t, "a"),
+			B: rapid.IntRange(0, 1023).Draw(t, "b"),
+			C: rapid.IntRange(0, 1023).Draw(t, "c"),
+		}
 	}
 }
+
+func GenOp(t *rapid.T) sim.Op { return genOpFrom(attackKinds)(t) }
 
 func genCase(t *rapid.T) Case {
 	ps := GenPowers(t, 7)
 	c := Case{Powers: ps, Byz: GenByz(t, ps)}
-	c.Ops = rapid.SliceOfN(rapid.Custom(GenOp), 10, 260).Draw(t, "ops")
+	kinds := opKinds
+	if rapid.Bool().Draw(t, "withScriptedAttacks") {
+		kinds = attackKinds
+	}
+	c.Ops = rapid.SliceOfN(rapid.Custom(genOpFrom(kinds)), 10, 260).Draw(t, "ops")
 	return c
 }
 
